@@ -2,7 +2,7 @@
 CHECK = {
  'level': 'exploration',
  'rule': 'rapid-drawn stress workloads, each executed in a subprocess of the -race test binary: (a) one writer adding/removing blocks through the real '
-         'Executer (60-400 operations, removal bursts 1-12 deep, block cache 4/8/64, finality advancing or pinned) against 2-10 readers with drawn '
+         'Executer (60-400 operations, quick tier 60-240, removal bursts 1-12 deep, block cache 4/8/64, finality advancing or pinned) against 2-10 readers (quick 2-8) with drawn '
          'operation mixes over LastBlock/GetLastBlock/GetLastNBlocks, single and bulk header/block/transaction lookups (up to 64 items), '
          'GetBlocksBetweenHeight and the three sync RPC handlers; (b) 2-12 goroutines on one certificate.Pool (Add/duplicate Add/Has/Get/Select/'
          'Upgrade/Cleanup/Size); (c) 1-6 publishers, 1-6 subscription managers with live drainers on one EventEmitter (Publish/Subscribe/Unsubscribe/'
@@ -23,12 +23,12 @@ CHECK = {
  'assumptions': ['fake deterministic application (harness/node)', 'loopback networking for the started p2p connection',
                  'race reports without a frame of github.com/LiskHQ/lisk-engine/pkg/ are noted, not judged',
                  'blocks of the churn zone that are not tips are checked for completeness as an observation only (the statement names tips)'],
- 'quick': [{'pkg': 'c20', 'race': True, 'run': 'TestChainReadersWriter', 'checks': 5, 'timeout': 1500, 'shrinktime': '15s', 'gomaxprocs': 4},
-           {'pkg': 'c20', 'race': True, 'run': 'TestCertificatePool|TestEventEmitter|TestStagedStoreViews', 'checks': 5, 'timeout': 1500, 'shrinktime': '15s', 'gomaxprocs': 4},
+ 'quick': [{'pkg': 'c20', 'race': True, 'run': 'TestChainReadersWriter', 'checks': 4, 'timeout': 1500, 'shrinktime': '15s', 'gomaxprocs': 4},
+           {'pkg': 'c20', 'race': True, 'run': 'TestCertificatePool|TestEventEmitter|TestStagedStoreViews', 'checks': 10, 'timeout': 1500, 'shrinktime': '15s', 'gomaxprocs': 4},
            {'pkg': 'c20', 'race': True, 'run': 'TestRegress', 'timeout': 1500, 'gomaxprocs': 4}],
  'thorough': [{'pkg': 'c20', 'race': True, 'run': 'TestChainReadersWriter', 'checks': 30, 'shards': 4, 'timeout': 3000, 'shrinktime': '30s', 'gomaxprocs': 2},
               {'pkg': 'c20', 'race': True, 'run': 'TestCertificatePool|TestEventEmitter|TestStagedStoreViews', 'checks': 25, 'shards': 2, 'timeout': 3000, 'shrinktime': '30s', 'gomaxprocs': 2},
               {'pkg': 'c20', 'race': True, 'run': 'TestBlockSyncPolling', 'checks': 12, 'shards': 2, 'timeout': 3000, 'shrinktime': '30s', 'gomaxprocs': 2},
               {'pkg': 'c20', 'race': True, 'run': 'TestRegress', 'timeout': 1500, 'gomaxprocs': 2}],
- 'replay': [{'pkg': 'c20', 'race': True, 'run': 'TestChainReadersWriter|TestCertificatePool|TestEventEmitter|TestStagedStoreViews|TestBlockSyncPolling|TestReplayWorkload', 'timeout': 1500}],
+ 'replay': [{'pkg': 'c20', 'race': True, 'run': 'TestReplayWorkload', 'timeout': 1500}],
 }
